@@ -54,3 +54,16 @@ Theorem C18_interleaving_sequential : forall own progs s w,
   (forall t, results_of t (snd (run w s)) = map (fun io => result_of (w (fst io)) (snd io)) (nth t progs [])).
 Proof. exact interleaving_sequential. Qed.
 Print Assumptions C18_interleaving_sequential.
+
+(* The translator's own reading of the source (Gen/Funcs.v, regenerated on every run): of the 111 translated functions,
+   the only methods that write through their receiver are decoders (Unmarshal / unmarshal).  Every translated Marshal,
+   MarshalSize, Header, DestinationSSRC, Len, Validate and CNAME is therefore, as Go text, a function of the packet's
+   value that leaves it unchanged (its rendering takes the receiver by value and returns no new receiver).  A change that
+   makes one of them assign through its receiver moves it into this list and the obligation fails. *)
+From RTCP Require Import Gen.Funcs.
+Definition is_decoder_name (k : string) : bool :=
+  let n := String.length k in
+  String.eqb (String.substring (n - 9) 9 k) "Unmarshal" || String.eqb (String.substring (n - 9) 9 k) "unmarshal".
+Theorem C18_source_only_decoders_write_their_receiver : forallb is_decoder_name receiver_writing_methods = true.
+Proof. vm_compute. reflexivity. Qed.
+Print Assumptions C18_source_only_decoders_write_their_receiver.
